@@ -43,7 +43,7 @@ import (
 func main() { vlib.Run("C13", run) }
 
 func run(c *vlib.Ctx) {
-	c.Rule("dag: 3-60 hand-encoded blocks (dag-pb with unsorted/duplicate-name links, dag-cbor with links nested in maps/lists, raw), bottom-up so sharing is frequent; 0-3 identity-CID nodes, v0<->v1 and raw-codec aliases of the same multihash, blocks left out of the store, dangling links, a locality predicate (false/error on a random CID subset); 1-3 walks from different roots sharing MapTracker | cid.Set | BloomTracker | none (tree-like only), real blockstore fetcher or a harness fetcher, optional early stop. entity: UnixFS trees built with boxo (multi-block files +-raw leaves, basic and HAMT directories fan-out 8, symlinks, inline identity files, dag-cbor/plain dag-pb wrappers, shared subtrees, deleted blocks). bloom: NewBloomTracker(10000..12000, fp) driven past 1 (quick) / 3 (thorough) growth steps. distinct = FNV of blocks+config+walks; non-trivial(dag) = reference order differs from BFS order and from reversed-sibling order, some CID reached twice, and an identity/missing/non-local node lies on the walk; non-trivial(entity) = a multi-block file exists, >= 2 HAMT shard nodes were reached and a shared or deleted block was met; non-trivial(bloom) = >= 1 growth step observed")
+	c.Rule("dag: 3-60 hand-encoded blocks (dag-pb with unsorted/duplicate-name links, dag-cbor with links nested in maps/lists, raw), bottom-up so sharing is frequent; 0-3 identity-CID nodes, v0<->v1 and raw-codec aliases of the same multihash, blocks left out of the store, dangling links, a locality predicate ((false,nil), (false,err) or (true,err) on a random CID subset; any error counts as not local); 1-3 walks from different roots sharing MapTracker | cid.Set | BloomTracker | none (tree-like only), real blockstore fetcher or a harness fetcher, optional early stop. entity: UnixFS trees built with boxo (multi-block files +-raw leaves, basic and HAMT directories fan-out 8, symlinks, inline identity files, dag-cbor/plain dag-pb wrappers, shared subtrees, deleted blocks). bloom: NewBloomTracker(10000..12000, fp) driven past 1 (quick) / 3 (thorough) growth steps. distinct = FNV of blocks+config+walks; non-trivial(dag) = reference order differs from BFS order and from reversed-sibling order, some CID reached twice, and an identity/missing/non-local node lies on the walk; non-trivial(entity) = a multi-block file exists, >= 2 HAMT shard nodes were reached and a shared or deleted block was met; non-trivial(bloom) = >= 1 growth step observed")
 	c.Cases("dag", c.N(5000, 40000), dagCase)
 	c.Cases("entity", c.N(500, 4000), entityCase)
 	c.Cases("bloom", c.N(8, 16), bloomCase)
@@ -529,7 +529,7 @@ func dagCase(k *vlib.Case) {
 	// locality
 	var local func(cid.Cid) bool
 	var localOpt func(context.Context, cid.Cid) (bool, error)
-	locMode := r.Intn(3) // 0 none, 1 some false, 2 false + errors
+	locMode := r.Intn(3) // 0 none, 1 some false, 2 false + errors (bool beside the error false or true)
 	nonLocal := map[string]int{}
 	if locMode > 0 {
 		for _, c := range allRefs {
@@ -538,8 +538,11 @@ func dagCase(k *vlib.Case) {
 			}
 			if r.Chance(1, 10) {
 				nonLocal[c.KeyString()] = 1
-				if locMode == 2 && r.Chance(1, 3) {
-					nonLocal[c.KeyString()] = 2
+				if locMode == 2 && r.Chance(1, 2) {
+					// the check fails; the bool next to the error is false (2) or true (3):
+					// a two-tier check `inIndex || inStore, errors.Join(ierr, serr)` returns
+					// (true, err) when one tier answered and the other failed
+					nonLocal[c.KeyString()] = 2 + r.Intn(2)
 				}
 			}
 		}
@@ -550,6 +553,8 @@ func dagCase(k *vlib.Case) {
 				return false, nil
 			case 2:
 				return false, errors.New("locality backend error")
+			case 3:
+				return true, errors.New("locality index error (store tier said yes)")
 			}
 			return true, nil
 		}
@@ -560,7 +565,7 @@ func dagCase(k *vlib.Case) {
 				nonLocal[c.KeyString()] = v
 			}
 		}
-		k.Logf("locality: non-local(1)/error(2) = %v", nl)
+		k.Logf("locality: (false,nil)=1 (false,err)=2 (true,err)=3 : %v", nl)
 	}
 
 	// tracker
@@ -1017,15 +1022,35 @@ func entityCase(k *vlib.Case) {
 	var local func(cid.Cid) bool
 	var localOpt func(context.Context, cid.Cid) (bool, error)
 	if r.Chance(1, 3) {
-		nl := map[string]bool{}
+		nl := map[string]int{} // 1 (false,nil)  2 (false,err)  3 (true,err)
+		withErr := r.Bool()
+		cnt := [4]int{}
 		for _, c := range keys {
 			if r.Chance(1, 12) {
-				nl[string(c.Hash())] = true
+				v := 1
+				if withErr {
+					v = r.Range(1, 3)
+				}
+				nl[string(c.Hash())] = v
+				cnt[v]++
 			}
 		}
-		local = func(c cid.Cid) bool { return isIdentity(c) || !nl[string(c.Hash())] }
-		localOpt = func(_ context.Context, c cid.Cid) (bool, error) { return local(c), nil }
-		k.Logf("locality: %d multihashes non-local", len(nl))
+		local = func(c cid.Cid) bool { return isIdentity(c) || nl[string(c.Hash())] == 0 }
+		localOpt = func(_ context.Context, c cid.Cid) (bool, error) {
+			if isIdentity(c) {
+				return true, nil
+			}
+			switch nl[string(c.Hash())] {
+			case 1:
+				return false, nil
+			case 2:
+				return false, errors.New("locality backend error")
+			case 3:
+				return true, errors.New("locality index error (store tier said yes)")
+			}
+			return true, nil
+		}
+		k.Logf("locality by multihash: %d (false,nil), %d (false,err), %d (true,err)", cnt[1], cnt[2], cnt[3])
 	}
 
 	trk := []string{"map", "cidset"}[r.Intn(2)]
